@@ -204,6 +204,10 @@ func thesaurusQueries(c *ctx, seg segment.Segment, spec sx.V) (bad string) {
 func checkC12(c *ctx) {
 	c.Rule = "batches mixing ordinary documents with synonym documents (1-3 thesauri interleaved in the batch, shared and distinct synonyms, the same term defined by several documents); observed: each thesaurus' term list, and (synonym, document) pairs under ALL exclusion bitmaps over up to 5 defining documents, unknown thesaurus / term, lookup histories in which the caller recycles the previous list and iterator (prealloc), ordinary dictionaries; in memory and after persist+open; files decoded by the extracted parser; expected = extracted spec_of_batch; non-trivial = >= 2 synonym documents"
 	c.Assumptions = append(c.Assumptions, "input domain W6 (>= 1 synonym per definition, non-empty strings); thesauri may be named like ordinary fields")
+	if bad := crossSegmentRecycling(c, c.n(20, 300)); bad != "" {
+		c.Violation("C12 "+bad, false)
+		return
+	}
 	n := c.n(160, 4000)
 	parts := []int{pThes, pDicts, pFields}
 	for i := 0; i < n; i++ {
@@ -271,7 +275,165 @@ func checkC13(c *ctx) {
 		c.Violation("C13 "+bad, false)
 		return
 	}
+	if bad := sameShapedThesMerges(c, c.n(24, 400)); bad != "" {
+		c.Violation("C13 "+bad, false)
+		return
+	}
 	mergeRounds(c, c.n(100, 3000), true, parts, false, "C13", func(mc *mergeCase, r *mergeResult, spec sx.V) string {
 		return thesaurusQueries(c, r.seg, spec)
 	})
+}
+
+// sameShapedThesMerges: the inputs of a merge have the same shape (as many documents, ids and words of
+// the same lengths, the same terms defined) and differ only in the synonyms; mostly without deletions.
+// (Segments written one after the other by the same indexing loop look like this.)
+func sameShapedThesMerges(c *ctx, rounds int) string {
+	words := []string{"glad", "huge", "vast", "tiny", "bold", "calm", "warm", "keen"}
+	terms := []string{"big", "cat", "dog"}
+	for i := 0; i < rounds; i++ {
+		nseg, nd, nt := 2+c.R.Intn(2), 1+c.R.Intn(3), 1+c.R.Intn(3)
+		mc := &mergeCase{mode: 1026}
+		for si := 0; si < nseg; si++ {
+			var b zh.Batch
+			for d := 0; d < nd; d++ {
+				f := zh.Field{Name: "syn1", Typ: 's'}
+				for _, t := range terms[:nt] {
+					w := c.R.Intn(len(words))
+					f.Syn = append(f.Syn, zh.SynDef{Term: t, Syns: []string{words[w], words[(w+1+c.R.Intn(len(words)-1))%len(words)]}})
+				}
+				b = append(b, zh.Doc{Fields: []zh.Field{zh.IDField(fmt.Sprintf("%c%02d", 'a'+si, d)), f}})
+			}
+			e, err := newBuilt(c, b, 1026, c.R.Bool())
+			must(err)
+			mc.ins = append(mc.ins, e)
+			if c.R.Chance(4) {
+				d, isNil := genDrops(c, e.n)
+				mc.drops, mc.nilBM = append(mc.drops, d), append(mc.nilBM, isNil)
+			} else {
+				mc.drops, mc.nilBM = append(mc.drops, nil), append(mc.nilBM, true)
+			}
+		}
+		c.Case(fmt.Sprintf("same-shaped-%d-%d-%d", nseg, nd, nt), true)
+		c.Count("merges_of_same_shaped_thesaurus_segments")
+		bad, r, spec := mergeVerdict(c, mc, []int{pThes}, false)
+		if bad == "" && r.seg != nil {
+			bad = thesaurusQueries(c, r.seg, spec)
+		}
+		if r != nil && r.seg != nil {
+			r.seg.Close()
+		}
+		for _, e := range mc.ins {
+			e.close()
+		}
+		if bad != "" {
+			return fmt.Sprintf("merge of %d segments of the same shape (%d synonym documents each, the same %d terms defined in every document, synonyms of equal length)\n%s\n%s", nseg, nd, nt, clip(bad), clip(mc.describe()))
+		}
+	}
+	return ""
+}
+
+// crossSegmentRecycling: a reader walks over several segments of the same shape and hands the list and
+// iterator it got from one segment to the next one as prealloc arguments (what a multi-segment reader
+// does); each lookup must yield the pairs of the segment it was addressed to.
+func crossSegmentRecycling(c *ctx, rounds int) string {
+	words := []string{"glad", "huge", "vast", "tiny", "bold", "calm", "warm", "keen"}
+	terms := []string{"big", "cat", "dog"}
+	for i := 0; i < rounds; i++ {
+		nseg, nd, nt := 2+c.R.Intn(2), 1+c.R.Intn(3), 1+c.R.Intn(3)
+		var segs []segment.Segment
+		var specs []sx.V
+		closeAll := func() {
+			for _, s := range segs {
+				s.Close()
+			}
+		}
+		for si := 0; si < nseg; si++ {
+			var b zh.Batch
+			for d := 0; d < nd; d++ {
+				f := zh.Field{Name: "syn1", Typ: 's'}
+				for _, t := range terms[:nt] {
+					w := c.R.Intn(len(words))
+					f.Syn = append(f.Syn, zh.SynDef{Term: t, Syns: []string{words[w], words[(w+1+c.R.Intn(len(words)-1))%len(words)]}})
+				}
+				b = append(b, zh.Doc{Fields: []zh.Field{zh.IDField(fmt.Sprintf("%c%02d", 'a'+si, d)), f}})
+			}
+			sb, _, spec, err := buildObs(c, b, 1026)
+			must(err)
+			var seg segment.Segment = sb
+			if c.R.Bool() {
+				o, _, err := zh.PersistOpen(sb)
+				must(err)
+				seg = o
+			}
+			segs, specs = append(segs, seg), append(specs, spec)
+		}
+		var preL segment.SynonymsList
+		var preI segment.SynonymsIterator
+		var trail []string
+		for q := 0; q < 10; q++ {
+			si := q % nseg
+			if c.R.Chance(4) {
+				si = c.R.Intn(nseg)
+			}
+			term := terms[c.R.Intn(nt)]
+			if q%nseg != 0 && c.R.Bool() && len(trail) > 0 {
+				term = terms[(q/nseg)%nt] // the same term in one segment after the other
+			}
+			trail = append(trail, fmt.Sprintf("segment %d %q", si, term))
+			var want []zh.SynPair
+			for _, t := range specs[si].L[pThes].L {
+				if string(t.L[0].B) != "syn1" {
+					continue
+				}
+				for _, te := range t.L[1].L {
+					if string(te.L[0].B) == term {
+						for _, p := range te.L[1].L {
+							want = append(want, zh.SynPair{Syn: string(p.L[0].B), Doc: p.L[1].N})
+						}
+					}
+				}
+			}
+			th, err := segs[si].(segment.ThesaurusSegment).Thesaurus("syn1")
+			if err != nil {
+				closeAll()
+				return "Thesaurus error: " + err.Error()
+			}
+			l, err := th.SynonymsList([]byte(term), nil, preL)
+			if err != nil {
+				closeAll()
+				return fmt.Sprintf("lookups %v each recycling the previous list: error %v", trail, err)
+			}
+			preL = l
+			it := l.Iterator(preI)
+			preI = it
+			var got []zh.SynPair
+			for {
+				sy, err := it.Next()
+				if err != nil {
+					closeAll()
+					return fmt.Sprintf("lookups %v each recycling the previous list: error %v", trail, err)
+				}
+				if sy == nil {
+					break
+				}
+				got = append(got, zh.SynPair{Syn: sy.Term(), Doc: uint64(sy.Number())})
+			}
+			canon := func(ps []zh.SynPair) string {
+				sort.Slice(ps, func(a, b int) bool {
+					if ps[a].Syn != ps[b].Syn {
+						return ps[a].Syn < ps[b].Syn
+					}
+					return ps[a].Doc < ps[b].Doc
+				})
+				return fmt.Sprint(ps)
+			}
+			if canon(got) != canon(want) {
+				closeAll()
+				return fmt.Sprintf("%d segments of the same shape (%d synonym documents each defining the same %d terms, synonyms of equal length); lookups in thesaurus \"syn1\" %v, each recycling the previous lookup's list and iterator: the last one yields (synonym doc) pairs %v, want %v", nseg, nd, nt, trail, got, want)
+			}
+			c.Count("cross_segment_recycled_lookups")
+		}
+		closeAll()
+	}
+	return ""
 }
